@@ -573,6 +573,20 @@ def identity_shortcircuit(prog: Program) -> List[Instance]:
         for k, ok in checks.items():
             out.append(Instance("R-GUARDSEQ", f"{f.qual}#identity:{k}", OK if ok else BAD,
                                 f"`return {g}` only with {k}" if ok else f"`return {g}` reachable without the {k} condition: a request that changes the grid would get the source geobox back", f.where(r)))
+    # GeoBoxBase.footprint: the (buffered) extent is densified *by the projection call* with a
+    # resolution derived from npoints; a buffer applied after densification removes the collinear points
+    fp = prog.func("geobox:GeoBoxBase.footprint")
+    org = Origins(fp)
+    pn = fp.param_names()
+    tcs = [n for n in walk_own(fp.node) if isinstance(n, ast.Call) and call_name(n) == "to_crs"]
+    okf = False
+    if len(tcs) == 1:
+        rk = next((k.value for k in tcs[0].keywords if k.arg == "resolution"), tcs[0].args[1] if len(tcs[0].args) > 1 else None)
+        okf = rk is not None and "npoints" in org.deps(rk) and short(tcs[0].args[0]) == pn[1]
+        bufs = [n for n in walk_own(fp.node) if isinstance(n, ast.Call) and call_name(n) == "buffer"]
+        okf = okf and all(b.lineno <= tcs[0].lineno for b in bufs)
+    out.append(Instance("R-GUARDSEQ", f"{fp.qual}#densify-at-projection", OK if okf else BAD,
+                        "footprint is projected with resolution=f(npoints) after buffering" if okf else "footprint is not densified by the projection call (to_crs(crs, resolution=f(npoints)) after buffering): curved sides are projected from their corners only", fp.where()))
     # the footprint used for the output box is buffered and computed in the requested CRS
     for n in walk_own(f.node):
         if isinstance(n, ast.Call) and call_name(n) == "footprint":
